@@ -36,7 +36,9 @@ REGISTRY = {
                     dict(kind='egg', file='replays/merge/extract_skips_subsumed.egg', forbid_out='(Mul (Var "a") (Num 2))', require_out='(Shl (Var "a") (Num 1))')]},
     'semi': {'*': [dict(kind='egg', file='replays/semi/seminaive.egg'), dict(kind='egg', file='replays/semi/seminaive.egg', args=('--naive',))]},
     'uf': {'*': [dict(kind='harness', name='uf_partition')]},
-    'insert': {'*': [dict(kind='harness', name='table_api'), dict(kind='egg', file='replays/merge/merge_and_subsume.egg')]},
+    'insert': {'*': [dict(kind='egg', file='replays/merge/merge_and_subsume.egg'),
+                     dict(kind='egg', file='replays/merge/parallel_in_batch_merge.egg', args=('-j', '4'), env={'EGGLOG_PARALLEL_TABLE_OP_CUTOFF': '0'}),
+                     dict(kind='harness', name='table_api')]},
     'disp': {
         'clear': [dict(kind='harness', name='disp_clear')],
     },
